@@ -291,8 +291,8 @@ impl Property for C13 {
     }
     fn cases(&self, tier: Tier) -> u32 {
         match tier {
-            Tier::Quick => 1500,
-            Tier::Thorough => 20_000,
+            Tier::Quick => 20_000,
+            Tier::Thorough => 200_000,
         }
     }
     fn rule(&self) -> String {
